@@ -195,6 +195,27 @@ def sharing_scenario(rng, enc):
     return {"op": "bddhist", "enc": enc, "kind": "bdd", "steps": steps}
 
 
+def manysyms_scenario(rng, enc):
+    """automata over MANY distinct symbol names (beyond 8 bits' worth): the symbol codes of the BDD encodings are handed out by a
+    counter in a process-wide alphabet; two names whose numbers differ by a multiple of 256 lead to different states here"""
+    k = rng.choice([130, 260, 300, 520, 700])
+    def aut(shift, top):
+        rules = [["n%d" % i, [], shift + ((i // 256) % 2)] for i in range(k) if rng.random() < 0.9]
+        if top == "g":
+            rules.append(["g", [shift], shift + 2])
+        else:
+            rules.append(["f", [shift, shift + 1], shift + 2])
+            rules.append(["g", [shift + 1], shift + 2])
+        rng.shuffle(rules)
+        return {"fin": [shift + 2], "rules": rules}
+    A, B = aut(0, "g"), aut(10, rng.choice(["g", "f"]))
+    steps = [["load", 0, A], ["load", 1, B], [rng.choice(["union", "uniondisj"]), 2, 0, 1], ["isect", 3, 0, 1], ["destroy", 3],
+             [rng.choice(["useless", "unreach"]), 3, 2]]
+    if enc == "bu":
+        steps.append(["totd", 0, 2])
+    return {"op": "bddhist", "enc": enc, "kind": "bdd", "steps": steps}
+
+
 def nt_bdd(c):
     shared = False
     for s in c["steps"]:
@@ -256,6 +277,8 @@ def check_C08(tier, seed, res, replay=None):
     for i in range(n):
         enc = "bu" if i % 2 == 0 else "td"
         c = sharing_scenario(rng, enc) if i % 4 >= 2 else gen_bdd_history(rng, rng.randint(steps // 2, steps), enc)
+        if i % 100 >= 98:
+            c = manysyms_scenario(rng, enc)
         c["id"] = ["c08", i]
         cases.append(c)
     # agreement arm: each BDD operation against the same operation in the explicit encoding (library's own inclusion);
